@@ -359,3 +359,30 @@ CHECKS["C14"] = dict(
         level_note="Thread interleavings are sampled, not enumerated; TSan sees only races on code executed concurrently by the generated histories.",
     ),
 )
+
+CHECKS["C07"] = dict(
+    harnesses={"pbt": dict(src="c07_sequencer.cpp", cfg="asan", kind="rc")},
+    quick=[dict(name="tick", harness="pbt", workers=8, args=["--n", "4000"]),
+           dict(name="audio", harness="pbt", workers=8, args=["--mode", "audio", "--n", "100"])],
+    thorough=[dict(name="tick", harness="pbt", workers=16, args=["--n", "60000"], timeout=10800),
+              dict(name="audio", harness="pbt", workers=16, args=["--mode", "audio", "--n", "2500"], timeout=10800)],
+    rule="rapidcheck SMF structures: format 0/1, 1-8 tracks (track k on channels 2k,2k+1), divisions {1,24,96,192,480,960,32767,random}, deltas 0 / small / multi-byte VLQ / up to 2M ticks, "
+         "note on/off (velocity 0 too), controllers, program, bend, channel and key pressure with and without running status, SysEx F0 and F7, text/marker/sequencer-specific metas carrying "
+         "(track,serial) stamps, tempo/time-signature/key/SMPTE/channel-prefix metas in track 0, End-of-Track alone at its tick or not; tempo multipliers {0.25,0.5,1,1.5,4,random}; "
+         "track off/solo and channel masks; tick-driven (three step policies, three granularities) or audio-driven (request sizes 2..70000). An independent interpreter of the generated "
+         "structure (exact rational tempo map) gives each event's tick and time; the raw-event-hook stream must contain every expected event once, per-track in tick order with the "
+         "same-tick ordering constraints, in global time order, in the first call whose song time reaches its time (never earlier/later; audio: within one 512-frame period early, never late); "
+         "totalTimeLength = latest time + 1 s; no note on gated channels/tracks. Non-trivial = (>=2 tracks or a tempo change after tick 0) and a tick with >=2 event classes.",
+    assumptions=[
+        "PPQN divisions only; tempo events only in track 0; CC110/111/113 and loop markers are not generated here (C09)",
+        "same-tick ordering is checked as the constraints the statement lists, not as one expected permutation",
+        "audio-driven songs are shortened (deltas <= 200 ticks, tempo <= 1 s per quarter) so rendering stays affordable",
+    ],
+    min_nontrivial={"quick": 300, "thorough": 3000},
+    manifest=dict(
+        technique="differential property testing against an independent reference interpreter of generated SMF structures (exact tempo arithmetic), observing delivery through the raw-event hook",
+        level_text="Every generated file is interpreted independently from its structure; event identity, multiplicity, order constraints, delivery time (tick- and audio-driven), reported "
+                   "length and gating are compared with what the sequencer actually delivers.",
+        level_note="Trusts the reference interpreter's reading of the SMF specification and of the statement's same-tick rules.",
+    ),
+)
